@@ -21,7 +21,11 @@ THEOREMS = [f"NumbersModel.Props.C13.{t}" for t in (
     # custom number patterns (Model/CustomFmt.lean)
     "format_types_as_modelled", "custom_percent_scale", "custom_digits_read_back", "custom_sign", "custom_number_text_alphabet",
     "custom_literals_pass_through", "custom_padding_only_pads", "custom_total", "custom_builder_well_formed",
-    "custom_api_total", "custom_scientific", "custom_dispatch")] + [f"NumbersModel.Props.C13.Src.{t}" for t in (
+    "custom_api_total", "custom_scientific", "custom_dispatch",
+    # the format-selection glue (Model/FormatDispatch.lean)
+    "dispatch_tables_as_modelled", "format_names", "dispatch_total", "formatting_defaults", "set_then_display",
+    "set_then_display_tickbox", "set_then_display_popup", "control_displays_number_format", "control_default_and_invalid",
+    "control_archive_kind", "display_reads_back", "display_reads_back_base")] + [f"NumbersModel.Props.C13.Src.{t}" for t in (
     # the same clauses over _twos_complement / _format_fraction_parts_to as py2lean regenerates them from cell.py
     "src_twos_complement_value", "src_fraction_parts_normal_form")] + [f"NumbersModel.Translated.{t}" for t in (
     "twos_complement_eq_model", "format_fraction_parts_to_eq_model", "invert_eq")]
@@ -38,7 +42,15 @@ RULE = ("every case is one (value, format) pair sent through Table.write + Table
         "workbooks and 25 hand-made literal patterns (quoted text holding digits / # 0 . , / a repeated spec, currency glyph, "
         "percent) x values; _expand_quotes on all strings of length <= 6 over {quote, letter, digit}; format(int,'0w,'); text "
         "patterns after save/reopen; the renderer chosen by Cell.formatted_value for every format kind and for every distinct "
-        "(cell type, format ids) combination of the reference workbooks. A case is non-trivial once per distinct request line.")
+        "(cell type, format ids) combination of the reference workbooks. Format-selection glue (checks/fmtglue.py, driver op "
+        "fmtd): every format name (and names that are no format) x every cell kind Table.write can make (+ an empty cell) x "
+        "{no argument, one argument}; for every format every subset of its optional arguments with valid and invalid values "
+        "(every value of an argument alone, seeded assignments for larger subsets) x a value pool, slider / stepper x every "
+        "control format x that format's arguments; every ordered pair of formats set one after the other on one cell; a sample "
+        "saved and reopened (archive, control and display read from the file); every formatted non-date cell of every fixture "
+        "document (<= 1200 distinct per file in quick). Compared per case: exception class, formatter called (the real "
+        "formatters are wrapped in-process), text, id slot, archive fields and which of them are set, control archive, currency "
+        "cell type. A case is non-trivial once per distinct request line.")
 MANIFEST = {
     "text": "Core proved, glue assumed: Lean theorems about an exact-decimal model of _format_decimal/_format_currency/"
             "_format_scientific/_format_base/_twos_complement/_format_fraction and of the custom number pattern renderer "
@@ -61,7 +73,16 @@ MANIFEST = {
             "bin/oct/hex) is proved equal to the arithmetic model 2^bits - a for every a >= 1 (twos_complement_eq_model), and the "
             "two clauses are restated over the translated definitions (Props.C13.Src.src_*). Custom number patterns are read as "
             "part of the property (its anchors name _decode_number_format; its decoration clause names zero padding, which only "
-            "they have).",
+            "they have). GLUE NOW MODELLED (Model/FormatDispatch.lean, reads the generated dispatch tables and dataclass "
+            "defaults instead of retyping them): Formatting.__post_init__, Table.set_cell_formatting/_set_cell_data_format, "
+            "format_archive, control_cell_archive, cell_popup_model, Cell._set_formatting, Cell.formatted_value/_custom_format/"
+            "_date_format/_format_fraction dispatch. dispatch_total (set_cell_formatting raises only TypeError / IndexError / "
+            "ValueError, otherwise formatted_value's dispatch selects exactly one formatter and cannot fail), formatting_defaults "
+            "(every default and every validation of __post_init__), set_then_display (for each number format the text is that "
+            "format's formatter applied with the arguments of the Formatting object, unchanged), control_displays_number_format "
+            "(a slider / stepper with control_format X displays exactly what format X displays for the same arguments, same "
+            "exception otherwise), set_then_display_tickbox / _popup, control_archive_kind, display_reads_back / _base (the C13 "
+            "read-back clauses stated once over set_cell_formatting + formatted_value).",
     "note": "sigfig is modelled for the call shapes used (round half-up on decimal digits); %E and round() as correctly "
             "rounded ties-to-even; the float products value*scale_factor(*100.0) of custom patterns are supplied to the model "
             "as exact decimals of their repr; the model mirrors the code after fixes/C13-*.patch.",
@@ -81,6 +102,12 @@ ASSUMPTIONS = [
     "exhaustively for w <= 15 on 15 integers); format(int, ','), str.rjust/ljust/rstrip/partition/split/replace as documented",
     "re.sub(r\"'[^']*'\", ...) and re.search(r'([#0.,]+(E[+]\\d+)?)', ...) are leftmost/greedy; \\d is the generated digit table",
     "the archive fields of a custom format are copied from the real TSK.FormatStructArchive (no protobuf is modelled)",
+    "glue: a format archive is the record of the fields the library sets / reads (an unset field reads as its proto2 default, an "
+    "integer outside uint32 is protobuf's ValueError, a keyword the message does not have is ValueError); data-list key "
+    "allocation and the memoising wrapper of format_archive are outside the model (C03); the float operations of the "
+    "formatters (x*100, sigfig(x,15), den*(x-int(x)), x*scale_factor) are supplied per case as exact decimals; str(value) of "
+    "numbers, dates and durations is CPython's and is supplied; argument values are well typed (ints, bools, str, enum "
+    "members) - ill-typed values are not modelled",
 ]
 
 NEG_STYLES = (0, 1, 2, 3)
@@ -594,6 +621,11 @@ def _run(ctx: Ctx):
     c13_custom.run_custom(ctx, specials, seeded)
     c13_custom.run_text_and_dispatch(ctx)
 
+    # --- the format-selection glue: Formatting / set_cell_formatting / format_archive / control archives / formatted_value dispatch
+    from checks import fmtglue
+    import sys
+    fmtglue.run_c13(ctx, sys.modules[__name__])
+
     # --- the third-party assumptions, directly ---------------------------------------------------------------------------
     bad = 0
     for x in specials + seeded:
@@ -700,6 +732,9 @@ def replay(data):
             table.set_cell_formatting(0, 0, k, **kw)
             out.append([k, table.cell(0, 0).formatted_value, _Impl().show(x, k, **kw)[0]])
         return {"write": repr(x), "per step [format, same cell displays, fresh cell displays]": out}
+    if i.get("glue"):
+        from checks import fmtglue
+        return fmtglue.replay(i)
     if str(i.get("format", "")).startswith("custom"):
         from checks import c13_custom
         return c13_custom.replay_custom(i)
